@@ -146,12 +146,31 @@ class LetSubstitution:
     def filter(self, node):
         return is_operator_app(node, 'let')
 
+    def __bound_symbols(self, term):
+        """Return the symbols bound by binders in or below ``term``."""
+        res = set()
+        for n in nodes.dfs(term):
+            if n.has_ident() and n.get_ident() in [
+                    'let', 'forall', 'exists'
+            ] and len(n) > 1 and not n[1].is_leaf():
+                res.update(v[0].data for v in n[1]
+                           if not v.is_leaf() and len(v) > 0 and v[0].is_leaf())
+        return res
+
     def mutations(self, node):
         if len(node) <= 2:
             return []
+        own = self.__bound_symbols(Node(node[0], node[1]))
+        inner = self.__bound_symbols(node[2])
         for var in node[1]:
             if var[0] == var[1]:
                 # (let ((x x)) ..): substituting x by x changes nothing
+                continue
+            used = set(n.data for n in nodes.dfs(var[1]) if n.is_leaf())
+            if var[0].data in inner or not used.isdisjoint(own | inner):
+                # x is bound again in the body, or a symbol of its term is
+                # bound by this binder or in the body: the copy would be
+                # captured
                 continue
             if any(n == var[0] for n in nodes.dfs(node[2])):
                 subs = nodes.substitute(node[2], {var[0]: var[1]})
